@@ -10,6 +10,7 @@ import (
 	"bytes"
 	"fmt"
 	"os"
+	"os/exec"
 	"path/filepath"
 	"sort"
 	"strconv"
@@ -514,6 +515,63 @@ func TestC12_MissingName(t *testing.T) {
 		}
 		if err == nil {
 			t.Fatalf("VERIF-VIOLATION C12: Refresh succeeded although the requested logger name %s is not configured\nconfig: %s", skip, c.desc())
+		}
+	})
+}
+
+// TestC12_StrangeName: handle names can only be requested before the first Refresh and live for the
+// whole process, so each generated name gets a process of its own (the test binary re-executed):
+// the child requests one more handle whose name is NOT a configured logger - but looks like
+// something in the configuration (a key below a configured logger, an appender's name, another
+// spelling of a logger's name) - and refreshes a configuration that serves h1..h4. Refresh must fail.
+func TestC12_StrangeName(t *testing.T) {
+	if name, ok := os.LookupEnv("VERIF_C12_EXTRA"); ok {
+		extra := log.GetLogger(name)
+		m := map[string]string{"appender.sink.type": "Rec", "appender.h1.type": "Rec"}
+		for i, n := range handleNames {
+			m["logger."+n+".type"] = "Logger"
+			m["logger."+n+".tags"] = "_c12_" + n
+			m["logger."+n+".appenderRef.ref"] = []string{"sink", "h1"}[i%2]
+			m["logger."+n+".level"] = "info"
+		}
+		err := log.Refresh(m)
+		if err == nil {
+			_, _ = extra.Write([]byte("x\n"))
+			fmt.Println("C12-CHILD-REFRESH-ACCEPTED")
+			os.Exit(3)
+		}
+		fmt.Println("C12-CHILD-REFRESH-REJECTED", strings.SplitN(err.Error(), "\n", 2)[0])
+		os.Exit(0)
+	}
+	vk.Rule(rule)
+	rapid.Check(t, func(t *rapid.T) {
+		name := rapid.OneOf(
+			rapid.SampledFrom([]string{"h1.type", "h1.tags", "h1.level", "h1.appenderRef", "h1.appenderRef.ref", "h2.appender-ref", "H1", "h1 ", " h1", "h_1", "sink", "appender.sink", "logger.h1", "logger", "h1.", ".h1", "h1.appenderRef[0]", "h5", "root", ""}),
+			rapid.StringMatching(`h[1-4]\.[a-zA-Z]{1,12}`),
+			rapid.StringMatching(`[a-z]{1,6}`),
+		).Draw(t, "name")
+		if name == "root" || name == "" {
+			name = "rootx"
+		}
+		for _, n := range handleNames {
+			if name == n {
+				name = n + ".type"
+			}
+		}
+		cmd := exec.Command(os.Args[0], "-test.run=^TestC12_StrangeName$")
+		cmd.Env = append(os.Environ(), "VERIF_C12_EXTRA="+name, "VERIF_STATS=")
+		out, err := cmd.CombinedOutput()
+		vk.Eval()
+		vk.Class("strange-name")
+		if strings.Contains(name, ".") {
+			vk.NonTrivial("strange:" + name)
+		}
+		switch {
+		case strings.Contains(string(out), "C12-CHILD-REFRESH-REJECTED"):
+		case strings.Contains(string(out), "C12-CHILD-REFRESH-ACCEPTED"):
+			t.Fatalf("VERIF-VIOLATION C12: Refresh succeeded although the requested logger name %q is not a configured logger (configured: h1..h4)", name)
+		default:
+			t.Fatalf("VERIF-INCONCLUSIVE C12: child for name %q ended unexpectedly: %v: %.300s", name, err, out)
 		}
 	})
 }
